@@ -5,13 +5,14 @@
 From GoRes Require Export KV.Model.
 
 Inductive skind :=
-| SBadger (prefix_raw : bytes)   (* badgerstore, SetPrefix(prefix_raw) ("" = no prefix) *)
+| SBadger (prefix_raw : bytes) (nl : nat)   (* badgerstore, SetPrefix(prefix_raw) ("" = no prefix), nl BeforeChange listeners *)
 | SMock (newid : bool).          (* mockstore, NewID set or not *)
 
 Record iop := IO {
   io_op : op;                    (* the call and what the environment decided *)
   io_res : result;               (* what the implementation returned *)
-  io_cbs : list cbcall           (* OnChange calls observed during the call *)
+  io_cbs : list cbcall;          (* OnChange calls observed during the call *)
+  io_bcs : list bccall           (* BeforeChange calls observed during the call: listener, id, before, after *)
 }.
 
 Record kcase := KC {
@@ -38,18 +39,35 @@ Fixpoint cbs_eqb (a b : list cbcall) : bool :=
   | _, _ => false
   end.
 
+Definition bc_eqb (a b : bccall) : bool :=
+  Nat.eqb (fst (fst (fst a))) (fst (fst (fst b))) && beq (snd (fst (fst a))) (snd (fst (fst b))) &&
+  obeq (snd (fst a)) (snd (fst b)) && obeq (snd a) (snd b).
+Fixpoint bcs_eqb (a b : list bccall) : bool :=
+  match a, b with
+  | [], [] => true
+  | x :: a', y :: b' => bc_eqb x y && bcs_eqb a' b'
+  | _, _ => false
+  end.
+
 Definition model_step (k : skind) : kvstate -> op -> kvstate * result * list cbcall :=
   match k with
-  | SBadger raw => bstep (mk_prefix raw)
+  | SBadger raw _ => bstep (mk_prefix raw)
   | SMock newid => mstep newid
   end.
 Definition model_view (k : skind) : kvstate -> id -> option val :=
   match k with
-  | SBadger raw => view (mk_prefix raw)
+  | SBadger raw _ => view (mk_prefix raw)
   | SMock _ => view []
   end.
 
-(* field codes: 1 result of an operation, 2 OnChange calls of an operation, 3 final content *)
+Definition model_bc (k : skind) : kvstate -> op -> list bccall :=
+  match k with
+  | SBadger raw nl => bstep_bc (mk_prefix raw) nl
+  | SMock _ => fun _ _ => []
+  end.
+
+(* field codes: 1 result of an operation, 2 OnChange calls of an operation, 3 final content,
+   4 BeforeChange calls of an operation *)
 Fixpoint check_ops (k : skind) (st : kvstate) (ops : list iop) : list N * kvstate :=
   match ops with
   | [] => ([], st)
@@ -57,7 +75,8 @@ Fixpoint check_ops (k : skind) (st : kvstate) (ops : list iop) : list N * kvstat
       let '(st1, res, cbs) := model_step k st (io_op o) in
       let '(codes, st2) := check_ops k st1 r in
       ((if result_eqb res (io_res o) then [] else [1]) ++
-       (if cbs_eqb cbs (io_cbs o) then [] else [2]) ++ codes, st2)
+       (if cbs_eqb cbs (io_cbs o) then [] else [2]) ++
+       (if bcs_eqb (model_bc k st (io_op o)) (io_bcs o) then [] else [4]) ++ codes, st2)
   end.
 Definition check_case (c : kcase) : list N :=
   let '(codes, st) := check_ops (k_store c) [] (k_ops c) in
@@ -76,12 +95,15 @@ Definition check_case (c : kcase) : list N :=
           7 a callback's before-value is not the previous after-value of that id
           8 Value did not return the current value (incl. the transaction's own writes)
           9 an operation that must succeed failed
-          10 final content differs from the fold of the successful operations *)
+          10 final content differs from the fold of the successful operations
+          11 an operation that succeeded or was vetoed did not call the BeforeChange listeners once
+             each, in registration order, up to the first veto, with (id, value before, value after) *)
 Definition is_failure (r : result) : bool :=
   match r with ENotFound | EDuplicate | EMissingID | EType | EVeto | RPanic | EOther => true | _ => false end.
 Definition is_ok (r : result) : bool := match r with ROk => true | _ => false end.
-Definition kind_checks (k : skind) : bool := match k with SBadger _ => true | SMock _ => false end.
-Definition kind_genid (k : skind) : bool := match k with SBadger _ => false | SMock b => b end.
+Definition kind_checks (k : skind) : bool := match k with SBadger _ _ => true | SMock _ => false end.
+Definition kind_nl (k : skind) : nat := match k with SBadger _ nl => nl | SMock _ => 0%nat end.
+Definition kind_genid (k : skind) : bool := match k with SBadger _ _ => false | SMock b => b end.
 
 Definition eff_id (k : skind) (o : op) : id :=
   match o with
@@ -142,7 +164,16 @@ Definition op_codes (k : skind) (content : amap) (o : iop) : list N :=
        if is_ok r then (if cbs_eqb (io_cbs o) [(j, cur, None)] then [] else [6])
        else (if is_nil (io_cbs o) then [] else [5])
    | _ => if is_nil (io_cbs o) then [] else [5]
-   end).
+   end) ++
+  (if chk && (is_ok r || result_eqb r EVeto) then
+     match io_op o with
+     | OCreate _ v e | OUpdate _ v e =>
+         if bcs_eqb (io_bcs o) (bc_calls (kind_nl k) (e_vetoat e) j cur (Some v)) then [] else [11]
+     | ODelete _ e =>
+         if bcs_eqb (io_bcs o) (bc_calls (kind_nl k) (e_vetoat e) j cur None) then [] else [11]
+     | _ => []
+     end
+   else []).
 
 Definition apply_impl (k : skind) (content : amap) (o : iop) : amap :=
   let j := eff_id k (io_op o) in
